@@ -41,7 +41,7 @@ CHECKS = {
    note="Trusted: mc/oracles/s3.py. Border tolerance 5e-5 (code rounds cosines to 7 decimals); borders of two-face pairs are not compared (left open by the statement)."),
  "C05": dict(category="exploration", design="DESIGN.md §5 C05",
    technique="exhaustive enumeration of direction grids x radial grids, every cell and pair against closed forms on the O-S2 oracle",
-   text="3 algorithms x N menu (thorough every N 4..64) x 8-13 radial grids with unequal increments, unsorted input and every syntax: every cell volume and every ordered pair's adjacency/border/distance is compared with the closed forms of the statement built on the independent spherical Voronoi oracle, plus the three sum rules.",
+   text="3 algorithms x every N in 4..45, 63, 64 (thorough every N 4..64 with 13 radial grids) x 8 radial grids with unequal increments, unsorted input and every syntax: every cell volume and every ordered pair's adjacency/border/distance is compared with the closed forms of the statement built on the independent spherical Voronoi oracle, plus the three sum rules.",
    note="Trusted: O-S2 and 40 lines of closed forms; radii of the oracle come from exact rationals. Tolerance 1e-7 relative."),
  "C06": dict(category="exploration", design="DESIGN.md §3 O-E3, §5 C06",
    technique="exhaustive enumeration over every N x radial grids against a Qhull-free cone/slab closed form of the Euclidean Voronoi cells (Qhull ridge areas as oracle self-check)",
@@ -58,7 +58,7 @@ CHECKS = {
 
  "C07": dict(category="exploration", design="DESIGN.md §5 C07",
    technique="exhaustive enumeration over every N per algorithm plus every prefix length of the polytope node arrays",
-   text="Every N in 1..64 plus every subdivision-level boundary +-1 up to 643 (thorough: every N to 400, comb to 2562) for ico/cube3D/randomS, every N in 1..24, 39-41 (thorough 1..272) for cube4D/randomQ, fulldiv sizes, zero grids and N=1 by name are built through the factory and checked for shape, unit norm, pairwise (sign-folded) distinctness, separation bounds, canonical hemisphere and the exact [G; -G] layout; all prefixes of the level-3/4 and 4-D level-2 node arrays are swept incrementally.",
+   text="Every N in 1..130 plus every subdivision-level boundary +-1 up to 643 (thorough: every N to 400, comb to 2562) for ico/cube3D/randomS, every N in 1..42 (thorough 1..272) for cube4D/randomQ, fulldiv sizes, zero grids and N=1 by name are built through the factory and checked for shape, unit norm, pairwise (sign-folded) distinctness, separation bounds, canonical hemisphere and the exact [G; -G] layout; all prefixes of the level-3/4 and 4-D level-2 node arrays are swept incrementally.",
    note="Trusted: direct predicates. Separation bounds only for polytope algorithms."),
  "C08": dict(category="model_checking", design="DESIGN.md §2.1, §5 C08",
    technique="explicit-state BFS over create/get/reseed/draw/divide histories on live grid objects; bitwise comparison with a reference table from fresh subprocesses",
